@@ -26,6 +26,8 @@ def run(prop, tier, seed, work, ev):
     if prop == "C02":
         tlc_ok("mc/MC_Call.tla", "MC_Call_val.cfg" if tier == "quick" else "MC_Call_val_thorough.cfg", work, ev=ev,
                label="function contract on value domains; algorithms as coded (FunctionsL1) = Apply " + tier, timeout=3000)
+        tlc_ok("mc/MC_Call.tla", "MC_Call_near.cfg", work, ev=ev, timeout=3000,
+               label="function contract over neighbouring doubles and large magnitudes (exact order), three-way merge; FunctionsL1 = Apply")
         tlc_must_fail("mc/MC_Call.tla", "MC_Call_val_nonvacuous.cfg", work, invariant="Inv_NoTiesExercised", ev=ev)
         tlc_must_fail("mc/MC_Call.tla", "MC_Call_val_neg_unstable.cfg", work, invariant="Inv_L1Functions", ev=ev)
         tlc_must_fail("mc/MC_Call.tla", "MC_Call_val_neg_merge.cfg", work, invariant="Inv_L1Functions", ev=ev)
